@@ -13,7 +13,9 @@ from .core import viol
 
 def long_chain(seed, coin, blocks, genesis):
     rng = random.Random("long|%s|%s|%d" % (seed, coin, blocks))
-    return gen.simple_chain(rng, coin, blocks, genesis=genesis, max_tx=1)
+    chain = gen.simple_chain(rng, coin, blocks, genesis=genesis, max_tx=1)
+    gen.vary_times(rng, chain, keep_first=True, pattern="backsteps")
+    return chain
 
 
 def long_case(spec):
